@@ -92,6 +92,20 @@ Theorem c03_flow_version_between_pep440 : forall z x y zz lab n e,
     pep_std_cmp (pep_final e [x; y; zz]) p = Lt /\ pep_std_cmp p (pep_final e [x; y; zz + 1]) = Lt).
 Proof. exact flow_version_between_pep. Qed.
 
+(* commit post-mode monotonicity, composed with the rendering: two objects with the same schema (standard core; extra-core one of the two
+   standard lists that print the post number), the same X.Y.W, label and number, no epoch, and post numbers p1 < p2 - whatever their dev
+   numbers, context and build - render to SemVer values with the first strictly smaller.  (By the flow law, in commit mode the post number
+   is the base post plus the distance, so more commits after the same tag mean a larger post number.) *)
+Theorem c03_post_monotone_rendering : forall z1 z2 x y w lab n p1 p2,
+  z_schema z1 = z_schema z2 -> s_core (z_schema z1) = standard_core ->
+  (s_extra (z_schema z1) = prerelease_post_dev_extra \/ s_extra (z_schema z1) = prerelease_post_extra) ->
+  (forall z, z = z1 \/ z = z2 -> v_major (z_vars z) = Some x /\ v_minor (z_vars z) = Some y /\ v_patch (z_vars z) = Some w /\ v_epoch (z_vars z) = None /\
+                                v_pre (z_vars z) = Some {| pr_label := lab; pr_num := Some n |} /\ opt_u64 (v_dev (z_vars z))) ->
+  v_post (z_vars z1) = Some p1 -> v_post (z_vars z2) = Some p2 -> p1 < p2 ->
+  u64 x -> u64 y -> u64 w -> u64 n -> u64 p1 -> u64 p2 ->
+  sv_lt (semver_of_zerv z1) (semver_of_zerv z2).
+Proof. exact post_monotone_rendering. Qed.
+
 Print Assumptions c03_between_semver.
 Print Assumptions c03_post_monotone_semver.
 Print Assumptions c03_between_pep440.
@@ -100,3 +114,4 @@ Print Assumptions c03_flow_version_between.
 Print Assumptions c03_law_off_final_release.
 Print Assumptions c03_pep440_prerelease_between.
 Print Assumptions c03_flow_version_between_pep440.
+Print Assumptions c03_post_monotone_rendering.
